@@ -328,11 +328,28 @@ def from_envelope_cases(res, drv, tier, rng):
         b = bytes.fromhex(created["ok"])
         eb = rng.choice([1, 4, 8, 16, 64])
         dep_re = r"dep_.*\.suit"
+        # the omit expression says which *payloads* stay in the envelope; that it also matches the name of a dependency envelope does not keep the
+        # dependency from being descended into
+        omit_re = [None, r"[^#].*", r"dep_a.*|#img.*_0", None, r".*\.suit|#root.*"][j % 5]
         with tempfile.TemporaryDirectory(prefix="verif_c10e_") as d:
-            impl = impl_cache(b, eb, None, dep_re, d)
+            impl = impl_cache(b, eb, omit_re, dep_re, d)
         all_names = names + [f"dep_inner{j}_{t}.suit" for t in range(ndeps)]
-        model = drv.call({"op": "extract.cache", "eb": eb, "envelope": b.hex(), "deps": all_names})
-        res.case(["from-envelope", j, ndeps, order, eb], nontrivial=True)
+        req = {"op": "extract.cache", "eb": eb, "envelope": b.hex(), "deps": all_names}
+
+        def omitted(n):
+            import re
+            return omit_re is not None and re.fullmatch(omit_re, n) is not None
+        if omit_re is not None:
+            payload_names = set()
+
+            def walk_names(e):
+                payload_names.update((e["SUIT_Envelope_Tagged"].get("suit-integrated-payloads") or {}).keys())
+                for v in (e["SUIT_Envelope_Tagged"].get("suit-integrated-dependencies") or {}).values():
+                    walk_names(v)
+            walk_names(desc)
+            req["omit"] = [n for n in sorted(payload_names | set(all_names)) if omitted(n)]
+        model = drv.call(req)
+        res.case(["from-envelope", j, ndeps, order, eb, omit_re], nontrivial=True)
         res.count("kind:from_envelope")
         ci = {k: v for k, v in impl.items() if k != "wrote"}
         if ci != model:
@@ -349,7 +366,8 @@ def from_envelope_cases(res, drv, tier, rng):
 
         def collect(e):
             for n, v in (e["SUIT_Envelope_Tagged"].get("suit-integrated-payloads") or {}).items():
-                exp[(n, v)] += 1
+                if not omitted(n):
+                    exp[(n, v)] += 1
             for n, v in (e["SUIT_Envelope_Tagged"].get("suit-integrated-dependencies") or {}).items():
                 collect(v)
         collect(desc)
